@@ -30,4 +30,18 @@ def secondPassShape : Bool :=
   !Restic.Gen.restorer_restoreNodeTo_calls.contains "fs.RemoveAll" &&
   (Restic.Gen.restorer_removeUnexpectedFiles_calls.takeWhile (· != "fs.RemoveAll")).contains "fs.HasPathPrefix"
 
+/-- the `skippedDir` callback: `traverseTreeInner` and `traverseTree` call it after the
+    `leaveDir` alternative; in `RestoreTo` it is guarded by `isDirBelow` directly before its
+    `removeUnexpectedFiles`; `isDirBelow` only looks (`fs.Lstat`, one per component of
+    `strings.Split`) and neither creates nor removes anything -/
+def skippedDirShape : Bool :=
+  Restic.Gen.restorer_isDirBelow_calls ==
+    ["filepath.Rel", "string", "strings.HasPrefix", "fs.Lstat", "fi.IsDir", "string", "strings.Split",
+     "filepath.Join", "fs.Lstat", "fi.IsDir"] &&
+  (Restic.Gen.restorer_RestoreTo_calls.dropWhile (· != "isDirBelow")).take 2 ==
+    ["isDirBelow", "res.removeUnexpectedFiles"] &&
+  (Restic.Gen.restorer_RestoreTo_calls.filter (· == "res.removeUnexpectedFiles")).length == 2 &&
+  (Restic.Gen.restorer_traverseTreeInner_calls.filter (· == "visitor.skippedDir")).length == 1 &&
+  (Restic.Gen.restorer_traverseTree_calls.filter (· == "visitor.skippedDir")).length == 1
+
 end Restic.Model.RestoreTree
